@@ -49,6 +49,8 @@ KNOCKOUTS = [
     Knockout("D3-user-circuit", EVO, sub_once("population.append((np.inf, self.circuit.copy()))", "population.append((np.inf, self.circuit))"), "effect.hof-copy", "self.circuit"),
     Knockout("D3-no-pop", SB, sub_nth("                    self.hof.insert(i, (score, circuit.copy()))\n                    self.hof.pop()\n                    break",
                                       "                    self.hof.insert(i, (score, circuit.copy()))\n                    break", 0), "effect.hof-copy", "pop; break"),
+    Knockout("result-on-improvement-only", EVO, sub_once("        self.result = (self.hof[0][0], self.hof[0][1])", "        if self.result is None or self.hof[0][0] < self.result[0]:\n            self.result = (self.hof[0][0], self.hof[0][1])"), "effect.result-provenance", "conditionally"),
+    Knockout("tournament-over-set", SB, sub_once("tourn_pop = random.choices(population, k=k)", "tourn_pop = set(random.choices(population, k=k))"), "order.sethash", "tournament_selection"),
     Knockout("D4-result-last", EVO, sub_once("self.result = (self.hof[0][0], self.hof[0][1])", "self.result = (self.hof[-1][0], self.hof[-1][1])"), "effect.result-provenance", "result"),
     Knockout("D4-mutate-after-compile", EVO,
              sub_once("                score = self.metric.evaluate(compiled_state, circuit)\n", "                score = self.metric.evaluate(compiled_state, circuit)\n                circuit.remove_identity()\n"),
